@@ -1551,6 +1551,10 @@ pub enum Mode {
     LocationOnly,
     /// report missed Must constructs and reports that match no Must/May construct
     Semantic,
+    /// the same, and the reported line must be the line on which the construct BEGINS (C05 says so in as many words:
+    /// "a line is reported if an occurrence … begins on it, and a line on which no construct matching the pattern begins is
+    /// never reported"); inside a gray construct every line on which one of its nodes begins is admissible
+    SemanticLines,
 }
 
 pub struct ProgResult {
@@ -1602,7 +1606,7 @@ pub fn check_text(text: &str, tok_offs: &[usize], label: &str, detectors: &[Dete
                 res.must_counts.push((0, 0, 0));
                 // a panic as such is C04's business; but a construct that MUST be reported is not reported by a
                 // call that does not return
-                if mode == Mode::Semantic {
+                if mode != Mode::LocationOnly {
                     if let Some(x) = verdicts.iter().find(|x| x.must) {
                         res.violations.push(Violation {
                             site: format!("{}:missed:panic", d.name),
@@ -1720,15 +1724,34 @@ pub fn check_text(text: &str, tok_offs: &[usize], label: &str, detectors: &[Dete
                     extra: json!({"label": label}),
                 }),
                 (Mode::Semantic, Some(_)) => {}
+                (Mode::SemanticLines, Some(x)) if !x.must && sub_construct(x) => {}
+                (Mode::SemanticLines, Some(x)) => res.violations.push(Violation {
+                    site: format!("{}:line-inside-construct:{}", d.name, x.kind),
+                    input: text.to_string(),
+                    expected: format!("no report on line {}: the {} that contains it begins on line {} and no construct matching the pattern begins on line {}", line, x.kind, crate::layout::line_of(text, x.span.0), line),
+                    observed: format!("reported lines {:?}", got),
+                    size: text.len(),
+                    unit_test: dets::unit_test_for(d, text, &format!("line {} must not be reported", line)),
+                    extra: json!({"label": label}),
+                }),
+                (Mode::SemanticLines, None) => res.violations.push(Violation {
+                    site: format!("{}:unsound:{}", d.name, starts.first().copied().unwrap_or("nothing")),
+                    input: text.to_string(),
+                    expected: format!("no report on line {}: no construct matching the documented pattern of {} begins there (constructs beginning there: {:?})", line, d.name, starts),
+                    observed: format!("reported lines {:?}", got),
+                    size: text.len(),
+                    unit_test: dets::unit_test_for(d, text, &format!("line {} must not be reported", line)),
+                    extra: json!({"label": label}),
+                }),
             }
         }
         // completeness
-        if mode == Mode::Semantic {
+        if mode != Mode::LocationOnly {
             for x in verdicts.iter().filter(|x| x.must) {
                 let mut ok = x.anchors.iter().any(|&a| got.contains(&crate::layout::line_of(text, a)));
                 // a construct counts as reported by any reported line that lies inside it and not inside another verdict's
                 // construct nested in it: WHERE inside the construct the finding points is C02's business
-                if !ok {
+                if !ok && mode == Mode::Semantic {
                     let lo = crate::layout::line_of(text, x.span.0);
                     let hi = crate::layout::line_of(text, x.span.1.saturating_sub(1).max(x.span.0));
                     ok = got.iter().any(|&l| {
